@@ -1815,12 +1815,15 @@ sexp sexp_sqrt (sexp ctx, sexp self, sexp_sint_t n, sexp z) {
 
 #if SEXP_USE_RATIOS || !SEXP_USE_FLONUMS
 sexp sexp_generic_expt (sexp ctx, sexp x, sexp_sint_t e) {
+  sexp_sint_t n = (e < 0 ? -e : e);
   sexp_gc_var2(res, tmp);
   sexp_gc_preserve2(ctx, res, tmp);
-  for (res = SEXP_ONE, tmp = x; e > 0; e >>= 1) {
-    if (e&1) res = sexp_mul(ctx, res, tmp);
+  for (res = SEXP_ONE, tmp = x; n > 0; n >>= 1) {
+    if (n&1) res = sexp_mul(ctx, res, tmp);
     tmp = sexp_mul(ctx, tmp, tmp);
   }
+  if (e < 0)                    /* x^-n = 1/x^n */
+    res = sexp_div(ctx, SEXP_ONE, res);
   sexp_gc_release2(ctx);
   return res;
 }
